@@ -64,6 +64,8 @@ func vfKnownNI(name string) string {
 type vfGen struct {
 	// pfx prefixes every symbolic input name (two worlds in one harness)
 	pfx    string
+	// concPfx: prefixes are drawn from short lists of concrete strings incl. non-canonical spellings
+	concPfx bool
 	nextID uint64
 	// fixLow: next-hops and groups of the pre-state live in the default instance
 	fixLow bool
@@ -269,13 +271,28 @@ func (g *vfGen) topFields(d *vfOpD, name string) {
 	}
 }
 
+// vfConcPfx4 / vfConcPfx6: accepted prefixes that are NOT in canonical form (host bits set, upper-case hex, zero
+// groups not compressed) next to their canonical spellings.  Keys of the prefix tables are the strings as sent.
+var vfConcPfx4 = []string{"10.0.0.0/8", "10.1.2.3/8", "10.0.0.0/16"}
+var vfConcPfx6 = []string{"2001:db8::/64", "2001:db8::1/64", "2001:DB8::/64", "2001:db8:0::/64"}
+
+func (g *vfGen) prefix(name, kind string) string {
+	if !g.concPfx {
+		return vfStrK(name+".pfx", kind)
+	}
+	if kind == "prefix4" {
+		return vfConcPfx4[vfInt(name+".pfx.choice", 0, len(vfConcPfx4)-1)]
+	}
+	return vfConcPfx6[vfInt(name+".pfx.choice", 0, len(vfConcPfx6)-1)]
+}
+
 func (g *vfGen) top(name string, kind int) *vfOpD {
 	d := &vfOpD{id: g.id(), typ: vfADD, kind: kind, ni: vfKnownNI(name)}
 	switch kind {
 	case vfKV4:
-		d.pfx = vfStrK(name+".pfx", "prefix4")
+		d.pfx = g.prefix(name, "prefix4")
 	case vfKV6:
-		d.pfx = vfStrK(name+".pfx", "prefix6")
+		d.pfx = g.prefix(name, "prefix6")
 	case vfKMPLS:
 		d.label = vfU64(name + ".label")
 	}
@@ -308,9 +325,9 @@ func (g *vfGen) anyOf(name string, maxMembers, typLo, typHi int, kinds []int) *v
 	d.hasBody = g.lean || vfBool(name+".hasBody")
 	switch d.kind {
 	case vfKV4:
-		d.pfx = vfStrK(name+".pfx", "prefix4")
+		d.pfx = g.prefix(name, "prefix4")
 	case vfKV6:
-		d.pfx = vfStrK(name+".pfx", "prefix6")
+		d.pfx = g.prefix(name, "prefix6")
 	case vfKMPLS:
 		d.label = vfU64(name + ".label")
 	case vfKNHG, vfKNH:
@@ -422,6 +439,7 @@ func vfCanonical(r *RIB, ref *vfRef, g *vfGen, c vfPreCfg) {
 
 // vfRunCfg describes one harness of the RIB family.
 type vfRunCfg struct {
+	concPfx  bool // prefixes from concrete lists incl. non-canonical spellings
 	fwdBoth  bool // explore both "forward references allowed" and "disallowed"
 	noFwd    bool // forward references disallowed (when !fwdBoth)
 	pre      vfPreCfg
@@ -449,7 +467,7 @@ func vfRIBRun(c vfRunCfg) {
 		fwd = vfBool("forward-references")
 	}
 	r, ref := vfNewPair(fwd)
-	g := &vfGen{rich: c.rich, fixLow: c.fixLow, splitLow: c.splitLow, enums: c.enums, payload: c.payload, lean: c.lean, encap: c.encap, weights: c.weights}
+	g := &vfGen{concPfx: c.concPfx, rich: c.rich, fixLow: c.fixLow, splitLow: c.splitLow, enums: c.enums, payload: c.payload, lean: c.lean, encap: c.encap, weights: c.weights}
 	pre := c.pre
 	if !fwd {
 		pre.nHeld = 0
